@@ -341,6 +341,7 @@ package transport
 //@   property C10 C19 C02
 //@   requires clientAddr != nil && clientKemEphemeral != nil
 //@   atomic
+//@   modifies hashAcc, opaque(s)
 //@   ensures err == nil ==> hs != nil && hsOK(hs) && hs.duplex.mode == cyclist.Key && hs.remoteAddr == clientAddr
 //@   ensures err == nil ==> openOK(bytes(s.cookieKey), cookieAD(kemPubOf(ref(clientKemEphemeral)), bytes(clientAddr.IP), clientAddr.Port), bytes(cookie[:64]))
 
@@ -356,6 +357,7 @@ package transport
 //@ func (s *Server) readPQClientAck(b []byte, addr *net.UDPAddr) (n int, hs *HandshakeState, err error)
 //@   property C10 C19 C02
 //@   requires addr != nil
+//@   modifies hashAcc, opaque(s)
 //@   ensures err == nil ==> hs != nil && hsOK(hs) && hs.duplex.mode == cyclist.Key && n == 1172 && len(b) >= 1172 && hs.remoteAddr == addr
 //@   ensures err == nil ==> called(transport.Server.ReplayPQDuplexFromCookie) && resultof(transport.Server.ReplayPQDuplexFromCookie, err) == nil &&
 //@        argof(transport.Server.ReplayPQDuplexFromCookie, clientAddr) == addr &&
@@ -384,9 +386,26 @@ package transport
 //@   assume application callback (the authgrant principal uses it to approve an intent, C06)
 //@   modifies opaque(leaf)
 
+// (C01) success means the configured policy accepted the parsed leaf: no policy, or skip, or -
+// with authorized keys allowed - the key set accepted it, or else the certificate store did
+// (certs.Store.VerifyLeaf, proved iff-correct under C04) for the configured name and the presented
+// intermediate; and an additional callback, when configured, returned nil.
 //@ func (hs *HandshakeState) certificateParserAndVerifier(rawLeaf []byte, rawIntermediate []byte) (leaf certs.Certificate, intermediate certs.Certificate, err error)
 //@   property C10 C01
 //@   modifies opaque(hs)
+//@   ensures err == nil ==> called(certs.Certificate.ReadFrom)
+//@   ensures err == nil && hs.certVerify != nil && !hs.certVerify.InsecureSkipVerify ==>
+//@        (hs.certVerify.AuthKeysAllowed && called(authkeys.SyncAuthKeySet.VerifyLeaf) && resultof(authkeys.SyncAuthKeySet.VerifyLeaf, err) == nil &&
+//@         argof(authkeys.SyncAuthKeySet.VerifyLeaf, s) == hs.certVerify.AuthKeys) ||
+//@        (called(certs.Store.VerifyLeaf) && resultof(certs.Store.VerifyLeaf, err) == nil &&
+//@         same(argof(certs.Store.VerifyLeaf, opts).Name, hs.certVerify.Name) &&
+//@         same(argof(certs.Store.VerifyLeaf, opts).CurrentTime, hs.certVerify.CurrentTime) &&
+//@         argof(certs.Store.VerifyLeaf, s).certs == hs.certVerify.Store.certs &&
+//@         (len(rawIntermediate) == 0 ==> argof(certs.Store.VerifyLeaf, opts).PresentedIntermediate == nil))
+//@   ensures err == nil && hs.certVerify != nil && hs.certVerify.AddVerifyCallback != nil ==>
+//@        called(transport.VerifyConfig.AddVerifyCallback) && resultof(transport.VerifyConfig.AddVerifyCallback, err) == nil
+//@   ensures err == nil && called(certs.Store.VerifyLeaf) && called(authkeys.SyncAuthKeySet.VerifyLeaf) ==>
+//@        argof(certs.Store.VerifyLeaf, leaf) == argof(authkeys.SyncAuthKeySet.VerifyLeaf, leaf)
 
 //@ func (s *Server) writePQServerAuth(b []byte, hs *HandshakeState) (n int, err error)
 //@   property C10
@@ -403,11 +422,35 @@ package transport
 //@ func (s *Server) readPQClientAuth(b []byte, addr *net.UDPAddr) (n int, hs *HandshakeState, err error)
 //@   property C10 C01
 //@   ensures err == nil ==> hs != nil && hsOK(hs) && hs.duplex.mode == cyclist.Key
+// (C01, server side, discoverable mode) success means: the handshake state is the one stored for the
+// datagram's source address, the client's certificates passed the policy attached to that state,
+// and the FINAL MAC - squeezed after absorbing DH(server ephemeral, key in the verified client leaf) -
+// was compared with the last 16 bytes read and was equal.
+//@   ensures err == nil ==> hs == resultof(transport.Server.fetchHandshakeState, hs) && argof(transport.Server.fetchHandshakeState, remoteAddr) == addr
+//@   ensures err == nil ==> called(transport.HandshakeState.certificateParserAndVerifier) && resultof(transport.HandshakeState.certificateParserAndVerifier, err) == nil &&
+//@        argof(transport.HandshakeState.certificateParserAndVerifier, hs) == hs
+//@   ensures err == nil ==> callcount(bytes.Equal) == 3 && resultof(bytes.Equal, r) &&
+//@        ref(argof(bytes.Equal, a)) == ref(hs.macBuf[:]) && len(argof(bytes.Equal, a)) == 16 &&
+//@        ref(argof(bytes.Equal, b)) == ref(b) && off(argof(bytes.Equal, b)) == off(b) + n - 16 && len(argof(bytes.Equal, b)) == 16
+//@   ensures err == nil ==> called(keys.X25519KeyPair.DH) && argof(keys.X25519KeyPair.DH, x) == &hs.dh.ephemeral &&
+//@        bytes(argof(keys.X25519KeyPair.DH, other)) == rng(resultof(transport.HandshakeState.certificateParserAndVerifier, leaf).PublicKey, 0, 32)
+//@   ensures err == nil ==> seqof(transport.HandshakeState.certificateParserAndVerifier) < seqof(keys.X25519KeyPair.DH) &&
+//@        seqof(keys.X25519KeyPair.DH) < seqof(cyclist.Cyclist.Absorb) && seqof(cyclist.Cyclist.Absorb) < seqof(cyclist.Cyclist.Squeeze) &&
+//@        seqof(cyclist.Cyclist.Squeeze) < seqof(bytes.Equal) &&
+//@        same(argof(cyclist.Cyclist.Absorb, x), resultof(keys.X25519KeyPair.DH, out)) &&
+//@        argof(cyclist.Cyclist.Absorb, c) == &hs.duplex && argof(cyclist.Cyclist.Squeeze, c) == &hs.duplex &&
+//@        ref(argof(cyclist.Cyclist.Squeeze, y)) == ref(hs.macBuf[:]) && len(argof(cyclist.Cyclist.Squeeze, y)) == 16
 
 //@ func (s *Server) readPQClientRequestHidden(hs *HandshakeState, b []byte) (n int, err error)
 //@   property C10 C19
 //@   requires len(b) >= 4 && hs.dh != nil && hs.kem != nil
+//@   modifies hs.duplex, hs.duplex.gh_tr, hs.macBuf, hs.sni, hs.kem.remoteEphemeral, hs.parsedLeaf, hs.dh.remoteStatic, hs.handshakeKey, b[:], opaque(hs)
 //@   ensures err == nil ==> hsOK(hs) && hs.duplex.mode == cyclist.Key && hs.kem.remoteEphemeral != nil && n <= len(b)
+// (C01, server side, hidden mode) the client's certificates passed the policy attached to hs, and its
+// static key from the verified leaf is recorded for DH(ss), which the server's response MAC then covers.
+//@   ensures err == nil ==> called(transport.HandshakeState.certificateParserAndVerifier) && resultof(transport.HandshakeState.certificateParserAndVerifier, err) == nil &&
+//@        argof(transport.HandshakeState.certificateParserAndVerifier, hs) == hs
+//@   ensures err == nil ==> hs.dh.remoteStatic == resultof(transport.HandshakeState.certificateParserAndVerifier, leaf).PublicKey
 // (C19) accepted only if both the tag and the final MAC compared equal and the timestamp is at most 5 s old and not in the future
 //@   ensures err == nil ==> callcount(bytes.Equal) >= 2 && resultof(bytes.Equal, r)
 //@   ensures err == nil ==> resultof(binary.bigEndian.Uint64, v) <= uint64(resultof(time.Time.Unix, s)) &&
@@ -420,6 +463,9 @@ package transport
 //@   property C10 C19
 //@   requires len(b) >= 4
 //@   ensures err == nil ==> hs != nil && hsOK(hs) && hs.duplex.mode == cyclist.Key && hs.kem.remoteEphemeral != nil && n == len(b)
+// (C01) the hidden-mode reader runs with the server's configured client-verification policy attached
+//@   ensures err == nil ==> hs.certVerify == old(s.config.ClientVerify) && hs == argof(transport.Server.readPQClientRequestHidden, hs) &&
+//@        resultof(transport.Server.readPQClientRequestHidden, err) == nil
 
 //@ func (s *Server) writePQServerResponseHidden(hs *HandshakeState, b []byte) (n int, err error)
 //@   property C10
@@ -494,6 +540,9 @@ package transport
 //@        (called(transport.Server.handlePQClientRequestHidden) && resultof(transport.Server.handlePQClientRequestHidden, err) == nil &&
 //@         argof(transport.Server.setHandshakeState, hs) == resultof(transport.Server.handlePQClientRequestHidden, hs))
 //@   ensures called(transport.Server.handlePQClientHello) ==> !called(transport.Server.setHandshakeState) && !called(transport.Server.finishHandshake)
+// (C01) the state stored after a client ack carries the server's client-verification policy
+//@   ensures called(transport.Server.setHandshakeState) && called(transport.Server.readPQClientAck) ==>
+//@        argof(transport.Server.setHandshakeState, hs).certVerify == old(s.config.ClientVerify)
 //@   ensures called(transport.Server.finishHandshake) ==>
 //@        (called(transport.Server.readPQClientAuth) && resultof(transport.Server.readPQClientAuth, err) == nil) ||
 //@        (called(transport.Server.handlePQClientRequestHidden) && resultof(transport.Server.handlePQClientRequestHidden, err) == nil)
@@ -542,12 +591,29 @@ package transport
 //@   requires hsOK(hs) && hs.duplex.mode == cyclist.Key
 //@   modifies hs.duplex, hs.duplex.gh_tr, hs.sessionID, hs.macBuf, hs.dh.remoteEphemeral, opaque(hs)
 //@   ensures err == nil ==> cyclistOK(hs.duplex) && hs.duplex.mode == cyclist.Key && n <= len(b)
+// (C01) success means: the server's certificates passed the client's policy, and the FINAL MAC -
+// squeezed after absorbing DH(client ephemeral, the public key in that verified leaf) - was
+// compared with the last 16 bytes of the message and was equal.
+//@   ensures err == nil ==> called(transport.HandshakeState.certificateParserAndVerifier) && resultof(transport.HandshakeState.certificateParserAndVerifier, err) == nil
+//@   ensures err == nil ==> callcount(bytes.Equal) == 2 && resultof(bytes.Equal, r) &&
+//@        ref(argof(bytes.Equal, a)) == ref(hs.macBuf[:]) && len(argof(bytes.Equal, a)) == 16 &&
+//@        ref(argof(bytes.Equal, b)) == ref(b) && off(argof(bytes.Equal, b)) == off(b) + n - 16 && len(argof(bytes.Equal, b)) == 16
+//@   ensures err == nil ==> called(keys.X25519KeyPair.DH) && callcount(keys.X25519KeyPair.DH) == 2 &&
+//@        argof(keys.X25519KeyPair.DH, x) == &hs.dh.ephemeral &&
+//@        bytes(argof(keys.X25519KeyPair.DH, other)) == rng(resultof(transport.HandshakeState.certificateParserAndVerifier, leaf).PublicKey, 0, 32)
+//@   ensures err == nil ==> seqof(transport.HandshakeState.certificateParserAndVerifier) < seqof(keys.X25519KeyPair.DH) &&
+//@        seqof(keys.X25519KeyPair.DH) < seqof(cyclist.Cyclist.Absorb) && seqof(cyclist.Cyclist.Absorb) < seqof(cyclist.Cyclist.Squeeze) &&
+//@        seqof(cyclist.Cyclist.Squeeze) < seqof(bytes.Equal) &&
+//@        same(argof(cyclist.Cyclist.Absorb, x), resultof(keys.X25519KeyPair.DH, out)) &&
+//@        argof(cyclist.Cyclist.Absorb, c) == &hs.duplex && argof(cyclist.Cyclist.Squeeze, c) == &hs.duplex &&
+//@        ref(argof(cyclist.Cyclist.Squeeze, y)) == ref(hs.macBuf[:]) && len(argof(cyclist.Cyclist.Squeeze, y)) == 16
 
 //@ func (hs *HandshakeState) writePQClientAuth(b []byte) (n int, err error)
 //@   property C10 C02
 //@   requires hsOK(hs) && hs.duplex.mode == cyclist.Key && hs.dh.static != nil
 //@   modifies hs.duplex, hs.duplex.gh_tr, b[:]
 //@   ensures 0 <= n && n <= len(b)
+//@   ensures err == nil ==> cyclistOK(hs.duplex) && hs.duplex.mode == cyclist.Key
 
 //@ func (hs *HandshakeState) writePQClientRequestHidden(b []byte, serverKEMPublicKey *keys.KEMPublicKey) (n int, err error)
 //@   property C10 C02
@@ -558,16 +624,50 @@ package transport
 //@ func (hs *HandshakeState) readPQServerResponseHidden(b []byte) (n int, err error)
 //@   property C10 C01 C02
 //@   requires hsOK(hs) && hs.duplex.mode == cyclist.Key && hs.dh.static != nil
-//@   ensures err == nil ==> n <= len(b)
+//@   modifies hs.duplex, hs.duplex.gh_tr, hs.sessionID, hs.macBuf, hs.parsedLeaf, opaque(hs)
+//@   ensures err == nil ==> n <= len(b) && cyclistOK(hs.duplex) && hs.duplex.mode == cyclist.Key
+// (C01, client side, hidden mode) as readPQServerAuth, with DH(client static, key in the verified server leaf).
+//@   ensures err == nil ==> called(transport.HandshakeState.certificateParserAndVerifier) && resultof(transport.HandshakeState.certificateParserAndVerifier, err) == nil
+//@   ensures err == nil ==> callcount(bytes.Equal) == 2 && resultof(bytes.Equal, r) &&
+//@        ref(argof(bytes.Equal, a)) == ref(hs.macBuf[:]) && len(argof(bytes.Equal, a)) == 16 &&
+//@        ref(argof(bytes.Equal, b)) == ref(b) && off(argof(bytes.Equal, b)) == off(b) + n - 16 && len(argof(bytes.Equal, b)) == 16
+//@   ensures err == nil ==> called(keys.Exchangable.Agree) && argof(keys.Exchangable.Agree, e) == old(hs.dh.static) &&
+//@        bytes(argof(keys.Exchangable.Agree, other)) == rng(resultof(transport.HandshakeState.certificateParserAndVerifier, leaf).PublicKey, 0, 32)
+//@   ensures err == nil ==> seqof(transport.HandshakeState.certificateParserAndVerifier) < seqof(keys.Exchangable.Agree) &&
+//@        seqof(keys.Exchangable.Agree) < seqof(cyclist.Cyclist.Absorb) && seqof(cyclist.Cyclist.Absorb) < seqof(cyclist.Cyclist.Squeeze) &&
+//@        seqof(cyclist.Cyclist.Squeeze) < seqof(bytes.Equal) &&
+//@        same(argof(cyclist.Cyclist.Absorb, x), resultof(keys.Exchangable.Agree, out)) &&
+//@        argof(cyclist.Cyclist.Absorb, c) == &hs.duplex && argof(cyclist.Cyclist.Squeeze, c) == &hs.duplex
 
 //@ func (c *Client) setHSDeadline()
 //@   assume deadline bookkeeping (C17)
 //@   modifies opaque(c)
 
+// (C01) the client's handshake drivers succeed only if the server-auth / server-response reader accepted
+// the whole datagram that was received.
 //@ func (c *Client) beginPQDiscoverableHandshake(buf []byte) (err error)
-//@   property C10
+//@   property C10 C01
+//@   ensures err == nil ==> called(transport.HandshakeState.readPQServerAuth) && resultof(transport.HandshakeState.readPQServerAuth, err) == nil &&
+//@        resultof(transport.HandshakeState.readPQServerAuth, n) == len(argof(transport.HandshakeState.readPQServerAuth, b)) &&
+//@        called(transport.readPQServerHello) && resultof(transport.readPQServerHello, err) == nil
+//@   ensures err == nil ==> c.hs == old(c.hs) && hsOK(c.hs) && c.hs.duplex.mode == cyclist.Key
 //@   requires c.hs != nil && hsOK(c.hs) && c.hs.duplex.mode == cyclist.Hash && c.hs.kem.ephemeral.Public != nil && c.hs.certVerify != nil && c.hs.dh.static != nil && len(buf) >= 65535
 
 //@ func (c *Client) beginPQHiddenHandshake(buf []byte) (err error)
-//@   property C10
+//@   property C10 C01
+//@   ensures err == nil ==> called(transport.HandshakeState.readPQServerResponseHidden) && resultof(transport.HandshakeState.readPQServerResponseHidden, err) == nil &&
+//@        resultof(transport.HandshakeState.readPQServerResponseHidden, n) == len(argof(transport.HandshakeState.readPQServerResponseHidden, b))
+//@   ensures err == nil ==> c.hs == old(c.hs) && hsOK(c.hs) && c.hs.duplex.mode == cyclist.Key
 //@   requires c.hs != nil && hsOK(c.hs) && c.hs.duplex.mode == cyclist.Hash && c.hs.kem.ephemeral.Public != nil && c.hs.dh.static != nil && len(buf) >= 65535
+
+//@ func (c *Client) prepareCertificates() (leaf []byte, intermediate []byte, err error)
+//@   assume certificate preparation (marshalling / self-signing the client's own certificate)
+//@   modifies opaque(c)
+
+// (C01) Handshake on the client reports success only if one of the two drivers did, and the client
+// verifies the server with its own configured policy.
+//@ func (c *Client) clientHandshakeLocked() (err error)
+//@   property C01
+//@   requires c.config.Exchanger != nil
+//@   ensures err == nil ==> (called(transport.Client.beginPQHiddenHandshake) && resultof(transport.Client.beginPQHiddenHandshake, err) == nil) ||
+//@        (called(transport.Client.beginPQDiscoverableHandshake) && resultof(transport.Client.beginPQDiscoverableHandshake, err) == nil)
